@@ -98,6 +98,15 @@ class _Interp:
             return frozenset([OTHER])
         if isinstance(n, ast.Call):
             return self.call(n, env)
+        if isinstance(n, (ast.ListComp, ast.SetComp, ast.GeneratorExp, ast.DictComp)):
+            e2 = dict(env)                    # the loop variables are bound like those of a `for` statement
+            for g in n.generators:
+                self.bind(g.target, self.elements(g.iter, e2), e2)
+                for c in g.ifs:
+                    self.ev(c, e2)
+            for part in ([n.key, n.value] if isinstance(n, ast.DictComp) else [n.elt]):
+                self.ev(part, e2)
+            return frozenset([OTHER])
         if isinstance(n, ast.IfExp):          # `a if isinstance(x, File) else b`: narrowed like the statement form
             et, ef, live_t, live_f = self.narrow(n.test, env)
             vals: frozenset = frozenset()
@@ -107,8 +116,8 @@ class _Interp:
                 vals |= self.ev(n.orelse, ef)
             return vals or frozenset([OTHER])
         if isinstance(n, (ast.BoolOp, ast.Compare, ast.UnaryOp, ast.BinOp, ast.JoinedStr, ast.Tuple, ast.List,
-                          ast.Subscript, ast.ListComp, ast.GeneratorExp, ast.Starred, ast.FormattedValue, ast.Set,
-                          ast.Dict, ast.Yield, ast.YieldFrom, ast.Await, ast.SetComp, ast.DictComp, ast.Lambda, ast.NamedExpr,
+                          ast.Subscript, ast.Starred, ast.FormattedValue, ast.Set,
+                          ast.Dict, ast.Yield, ast.YieldFrom, ast.Await, ast.Lambda, ast.NamedExpr,
                           ast.comprehension, ast.Slice)):
             for ch in ast.iter_child_nodes(n):
                 if isinstance(ch, (ast.expr, ast.comprehension)):
@@ -179,6 +188,21 @@ class _Interp:
         for r in rets:
             out |= r
         return out or frozenset([OTHER])
+
+    def elements(self, it: ast.AST, env: dict) -> frozenset:
+        """What a loop variable over `it` holds: the members of a tuple / list / set display, strings derived from
+        os.walk for an os.walk result, File handles for a walk_folder of a chain member, otherwise unknown."""
+        if isinstance(it, (ast.Tuple, ast.List, ast.Set)) and not any(isinstance(e, ast.Starred) for e in it.elts):
+            out: frozenset = frozenset()
+            for e in it.elts:
+                out |= self.ev(e, env)
+            return out or frozenset([OTHER])
+        v = self.ev(it, env)
+        if v == frozenset([S('PWalked')]):
+            return v
+        if self.chain and v == frozenset([OTHER]) and self._iter_yields_handles(it):
+            return frozenset([HANDLE])
+        return frozenset([OTHER])
 
     def strs(self, vals: frozenset, node: ast.AST, what: str) -> list[str]:
         out = []
@@ -387,10 +411,7 @@ class _Interp:
                 env[st.target.elts[0].id] = frozenset([OTHER])
                 env[st.target.elts[1].id] = frozenset([S('PPrefix')])
             else:
-                v = self.ev(it, env)
-                self.bind(st.target, v if v == frozenset([S('PWalked')]) else
-                          (frozenset([HANDLE]) if self.chain and v == frozenset([OTHER]) and self._iter_yields_handles(it)
-                           else frozenset([OTHER])), env)
+                self.bind(st.target, self.elements(it, env), env)
             # two passes reach the fixed point for these loop bodies (values only grow)
             e1 = self.merge(env, self.block(st.body, dict(env)))
             e2 = self.merge(e1, self.block(st.body, dict(e1)))
